@@ -260,6 +260,9 @@ class ThreadSim:
     def reenter(self, k, value):
         self.yield_point(('reenter', k))
 
+    def current_rowno(self):
+        return None
+
 
 def site_class(site):
     if site is None:
